@@ -90,15 +90,26 @@ Definition ml_ok (x : list (N * N * N * bool) * list (N * N * N)) : bool :=
   let model := fold_left (fun acc a => let '(b, s, e, r) := a in add_b r (b, s, e) acc) (fst x) [] in
   list_eqb bm_eqb (snd x) model.
 
+Fixpoint sorted_starts (l : list mtch) : bool :=
+  match l with
+  | a :: ((b :: _) as t) => (m_start a <? m_start b) && sorted_starts t
+  | _ => true
+  end.
+
 Definition check_case (k : case) : bool :=
   forallb ml_ok (c_ml k) &&
   forallb (anchored_k_ok k) (c_anchored k) &&
   forallb (fun w => let '(h, notion, defined) := w in Bool.eqb defined (whole_model h notion)) (c_whole k) &&
   Nat.eqb (length (c_blocks k)) (length (c_per_block k)) && within_ok k &&
+  (* what blocks_union states for every same-start policy: the reported list is strictly ascending
+     by start, every reported match is a shifted per-block match, and the starts are exactly the
+     starts of the model (the exact MatchList::add behaviour, position dependent, is compared
+     call by call in [ml_ok]) *)
   forallb (fun p =>
     let obs := map rm_m (nth p (c_block_res k) []) in
-    list_eqb mtch_eqb obs (model_of keep_longer k p) || list_eqb mtch_eqb obs (model_of keep_new k p)
-    || list_eqb mtch_eqb obs (model_of keep_old k p))
+    let model := model_of keep_longer k p in
+    sorted_starts obs && forallb (fun m => existsb (mtch_eqb m) (shifted_of k p)) obs &&
+    list_eqb N.eqb (map m_start obs) (map m_start model))
     (seq 0 (npat k)).
 
 Definition mem (m : mtch) (l : list mtch) : bool := existsb (mtch_eqb m) l.
